@@ -60,6 +60,7 @@ package leanhelixterm
 //@ dep param:leanhelixterm.requestOrderedCommitteePersist.cancel
 //@   ensures true
 //@ func requestOrderedCommitteePersist
+//@   assert before call RequestOrderedCommittee [O18.the-committee-is-requested-for-this-height-seed-and-reference-time] $blockHeight == blockHeight && $randomSeed == randomSeed && $prevBlockReferenceTime == prevBlockReferenceTime
 //@   props C16 C15 C12
 //@   requires s != nil && s.Contexts != nil && config != nil && config.Membership != nil
 //@   modifies M:S_state_HeightView:Int, ghost:lastCtxErrNil, ghost:recvd
@@ -79,6 +80,8 @@ package leanhelixterm
 // factory that signs as this node with the configured key manager, and the commit callback wrapper. Assumed at call sites
 // (ghost function, not code): the term belongs to the height the state holds.
 //@ func NewLeanHelixTerm
+//@   assert before call NewTermInCommittee [O18.the-protocol-logic-gets-the-committee-just-obtained-the-previous-block-and-the-first-leader-flag] $committeeMembers == committeeMembers && $prevBlock == prevBlock && $canBeFirstLeader == canBeFirstLeader && $state == state && $electionTrigger == electionTrigger && $config == config
+//@   assert before call requestOrderedCommitteePersist [O18.the-committee-of-the-height-after-the-previous-block-with-the-seed-of-its-proof] $blockHeight == (blockheight.GetBlockHeight(prevBlock) + 1) % 2^64 && $randomSeed == SeedOf(protocol.BlockProofReader(prevBlockProofBytes).RandomSeedSignature()) && $s == state && $config == config
 //@   props C12 C13 C17
 //@   requires [A-NONNIL.the-configured-spi-objects-are-present] config != nil && config.KeyManager != nil && config.BlockUtils != nil && config.Membership != nil && config.Communication != nil && state != nil && state.Contexts != nil && electionTrigger != nil
 //@   requires [A-KM-SIGN] SignsAs(config.KeyManager, config.Membership.MyMemberId())
